@@ -37,6 +37,8 @@ ALPHA = {
     "REQ_5_k1": ["REQ", 5, {"kinds": [1]}],
     "REQ_null_k1": ["REQ", None, {"kinds": [1]}],
     "REQ_list_k1": ["REQ", [1], {"kinds": [1]}],
+    # more filters than the SQL engine takes terms in one compound SELECT (500): answered all the same (EOSE or NOTICE)
+    "REQ_m_501_filters": ["REQ", "m"] + [{"kinds": [1000 + i]} for i in range(501)],
     "REQ_empty_k1": ["REQ", "", {"kinds": [1]}],  # the empty string is a legal subscription id
     "CLOSE_empty": ["CLOSE", ""],
     "CLOSE_a": ["CLOSE", "a"],
@@ -47,7 +49,7 @@ ALPHA = {
     "EVENT_e2": ["EVENT", E2],
     "DROP": DROP,
 }
-QUICK_ALPHA = ["REQ_a_k1", "REQ_b_k2", "REQ_a_k2", "REQ_c_k1", "REQ_a_invalid", "REQ_b_valid_invalid", "REQ_b_valid_emptytag", "REQ_a_unhashable", "REQ_5_k1", "REQ_empty_k1",
+QUICK_ALPHA = ["REQ_a_k1", "REQ_b_k2", "REQ_a_k2", "REQ_c_k1", "REQ_a_invalid", "REQ_b_valid_invalid", "REQ_b_valid_emptytag", "REQ_a_unhashable", "REQ_5_k1", "REQ_empty_k1", "REQ_m_501_filters",
                "CLOSE_empty", "CLOSE_a", "CLOSE_zz", "CLOSE_5", "EVENT_e1", "EVENT_e2", "DROP"]
 
 
